@@ -151,6 +151,10 @@ func fConcRound(r *rng, round int) (res fRoundResult) {
 	}
 	defer world.cleanup()
 	m := 24 + r.n(72)
+	if kind != "" {
+		// the pool of a dense world is asked about in short bursts (more cold starts for the time)
+		m = 24 + r.n(36)
+	}
 	qs := make([]*fQuery, m)
 	for i := range qs {
 		qs[i] = pick(r, pool)
